@@ -166,8 +166,8 @@ def simulate(prog, path, hist, halted_path):
                 return out, False
             r = 1 if x[0] else 0
             site = x[1]
-        elif w[0] == 'X':
-            cap = int(w[1])
+        elif w[0] in ('X', 'XR'):
+            cap = int(w[1]) if w[0] == 'X' else 10 ** 7
             stopped = False
             for _ in range(cap):
                 x = one()
@@ -202,9 +202,11 @@ PROJECTION = {
 }
 
 
-def project(pid, st):
+def project(pid, st, untraced=False):
     out = []
     for k in PROJECTION[pid]:
+        if k == 'tr' and untraced:
+            continue            # the real VM::execute() runs outside the driver's instruction tracer
         if k == 'data#':
             out.append(str(len(data_of(st))))
         elif k == 'inv' and pid == 'C20':
@@ -361,6 +363,14 @@ def explore(ctx, res, replay=None):
                 continue
             for _ in range(nlong):
                 add(pi, random_history(progs[pi], rng, rng.randint(3, 40 if quick else 200)))
+            # the real VM::execute() (no cap: only on programs whose uninterrupted run is known to halt)
+            if progs[pi].get('halts'):
+                locs = sorted(progs[pi]['pbs'].keys())
+                add(pi, ['XR', 'XR'])
+                add(pi, ['S 1', 'XR', 'XR', 'XR', 'S 0', 'XR'])
+                if locs:
+                    f, l = locs[len(locs) // 2]
+                    add(pi, ['B %s %d 1' % (f, l), 'XR', 'XR', 'C', 'XR'])
             # the invariant sweep: every instruction boundary (C19/C20)
             add(pi, ['XS %d' % (20000 if quick else 200000)])
             add(pi, ['S 1'] + ['XS 3000'] * 6)
@@ -399,9 +409,10 @@ def explore(ctx, res, replay=None):
                        if hist[k] == 'R' or (k > 0 and sts[k - 1].get('done') == '1' and hist[k][0] in 'XI')]
             else:
                 idx = list(range(min(len(sts), len(msts))))
+            unt = any(c.split()[0] == 'XR' for c in hist)
             same = (tail == mtail or (tail.endswith('FUEL') and mtail.endswith('FUEL'))) and len(sts) == len(msts) and \
-                all(project(pid, sts[k]) == project(pid, msts[k]) for k in idx if pid != 'C17' or hist[k] == 'R') and \
-                all((project(pid, sts[k]) == project(pid, sts[k - 1])) == (project(pid, msts[k]) == project(pid, msts[k - 1]))
+                all(project(pid, sts[k], unt) == project(pid, msts[k], unt) for k in idx if pid != 'C17' or hist[k] == 'R') and \
+                all((project(pid, sts[k], unt) == project(pid, sts[k - 1], unt)) == (project(pid, msts[k], unt) == project(pid, msts[k - 1], unt))
                     for k in idx if pid == 'C17' and hist[k] != 'R')
             if not same:
                 res.tie_broken.append(dict(case, what='implementation and model disagree on the %s projection' % pid,
@@ -465,7 +476,7 @@ def explore(ctx, res, replay=None):
                     fin = p['final']
                     if st['views'] != fin['views'] or st['data'] != fin['data']:
                         bad.append(('final', 'final values differ from the uninterrupted run: %s vs %s' % (st['views'], fin['views'])))
-                    if st['tr'] != fin['tr']:
+                    if st['tr'] != fin['tr'] and not any(c.split()[0] == 'XR' for c in hist):
                         bad.append(('trace', 'instruction path differs from the uninterrupted run (count:hash %s vs %s)' % (st['tr'], fin['tr'])))
                 prev = (e, st)
         for what, detail in bad:
